@@ -34,6 +34,22 @@ def step (op res : String) : List String :=
     if res.startsWith "ok" then ["br:serve.l2-burst"]
     else if res.startsWith "skip" then ["br:serve.skip", s!"DIVERGE drift serve engine could not run: {res}"]
     else ["DIVERGE dom model=serves", s!"FAIL C01 a burst of link-layer replies: {res}", s!"FAIL C16 a burst of link-layer replies: {res}"]
+  | ["svbig", proto, _seed] =>
+    -- datagrams of up to 65 000 bytes, one at a time through the real Serve loop (harness/serve.go, bigOp), whose right answer
+    -- is known by construction and hangs on the LAST option: a Server Identifier / option 54 naming another server (no reply:
+    -- C14, `SYS_C14_drop4/6` with server_id first) or a request for the DNS servers (a reply carrying them: C17,
+    -- `SYS_C17_delivered4`). A receive path that sees only the head of a long datagram gets both wrong.
+    if res.startsWith "ok" then [s!"br:serve.big{proto}"]
+    else if res.startsWith "skip" then ["br:serve.skip", s!"DIVERGE drift serve engine could not run: {res}"]
+    else if res.startsWith "wrong" then
+      let ws := words res
+      let a := ws.any (fun w => (w.splitOn "A-len").length > 1)
+      let b := ws.any (fun w => (w.splitOn "B-len").length > 1)
+      ["DIVERGE dom model=whole-datagram-is-read"] ++
+      (if a then [s!"FAIL C14 a long datagram ending in a server identifier that names another server was answered: {res}"] else []) ++
+      (if b then [s!"FAIL C17 a long datagram ending in a request for the DNS servers was not answered with them: {res}"] else []) ++
+      [s!"FAIL C01 long datagrams are not handled as what was sent: {res}"]
+    else ["DIVERGE dom model=serves", s!"FAIL C01 the Serve loop on long datagrams: {res}", s!"FAIL C16 the Serve loop on long datagrams: {res}"]
   | proto :: _k :: mode :: procs :: _ =>
     let tag := s!"br:serve.{proto}.{mode}.procs{if procs == "1" then "1" else "n"}"
     if res.startsWith "ok" then
